@@ -1,5 +1,6 @@
 SPECIFICATION FairSpec
 CONSTANTS
+  KeepHist = FALSE
   MaxS = 2
   MaxW = 2
   Srcs = {"d", "a", "c", "S", "da"}
